@@ -244,6 +244,14 @@ func (s *sim) corrupt(p *pkgState, st Step) {
 	switch st.Mode {
 	case "stale":
 		data = []byte(genHeader + "package " + p.name + "\n\n// Injectors from wire.go:\n\nfunc InitBar() Bar {\n\tfoo := ProvideFooOld()\n\tbar := ProvideBar(foo)\n\treturn bar\n}\n\nfunc InitGone() Gone {\n\treturn Gone{}\n}\n")
+	case "tweaked":
+		// the previous output with every import given an explicit (different) name and
+		// a few identifiers renamed: what a tool that "reuses parts of the old file" would pick up
+		cur := s.outputs(p.name)[name]
+		if len(cur) == 0 || !inPremise(cur) {
+			cur = []byte(genHeader + "package " + p.name + "\n\nimport (\n\t\"example.com/lib\"\n)\n\nfunc InitBar() Bar {\n\tfoo := ProvideFooOld()\n\tbar := ProvideBar(foo)\n\treturn bar\n}\n")
+		}
+		data = TweakOutput(cur)
 	case "noted":
 		// a previous output that somebody annotated by hand above the generated marker
 		cur := s.outputs(p.name)[name]
@@ -806,12 +814,44 @@ func (s *sim) cmd(idx int, st Step) string {
 	return ""
 }
 
+// TweakOutput rewrites a generated file: explicit, different names for all
+// imports and renamed locals. The result still carries the build constraint.
+func TweakOutput(cur []byte) []byte {
+	lines := strings.Split(string(cur), "\n")
+	inImport := false
+	n := 0
+	for i, l := range lines {
+		t := strings.TrimSpace(l)
+		switch {
+		case t == "import (":
+			inImport = true
+		case inImport && t == ")":
+			inImport = false
+		case inImport && strings.HasPrefix(t, "\""):
+			n++
+			lines[i] = fmt.Sprintf("\tzz%d %s", n, t)
+		case inImport && !strings.HasPrefix(t, "_ ") && strings.Contains(t, " \""):
+			n++
+			lines[i] = fmt.Sprintf("\tzz%d %s", n, t[strings.Index(t, "\""):])
+		case strings.HasPrefix(t, "import \""):
+			n++
+			lines[i] = fmt.Sprintf("import zz%d %s", n, strings.TrimPrefix(t, "import "))
+		}
+	}
+	out := strings.Join(lines, "\n")
+	out = strings.ReplaceAll(out, "err != nil", "err9 != nil")
+	out = strings.ReplaceAll(out, "cleanup()", "cleanup9()")
+	return []byte(out)
+}
+
 func modeBefore(data []byte) string {
 	switch {
 	case data == nil:
 		return ""
 	case len(data) == 0:
 		return "empty"
+	case bytes.Contains(data, []byte("\tzz1 \"")) || bytes.Contains(data, []byte("import zz1 ")):
+		return "tweaked"
 	case bytes.Contains(data, []byte("NOTE(bob)")):
 		return "noted"
 	case bytes.Contains(data, []byte("padding padding")):
